@@ -134,7 +134,13 @@ static bool runScenario(Scenario& sc, Rng& r, bool stress, const std::string& ta
       if (want != invalidActive) { invalidActive = want; g.deviceValid = !want; if (!want) lastFaultT = g.now; if (want) g.faultsFired++; }
     }
     bool silent = sc.silenceFrom >= 0 && off >= sc.silenceFrom && off < sc.silenceFrom + sc.silenceFor;
-    if (silent != silenceActive) { silenceActive = silent; if (!silent) { lastFaultT = g.now; bus.lastByteTime = g.now; } else g.faultsFired++; }
+    if (silent != silenceActive) {
+      silenceActive = silent;
+      // an outage is over for the progress bound once the handler had time to notice it (requests are then completed with "no signal",
+      // whether they were queued before or are submitted during the outage): completion must not wait for the signal to come back
+      if (silent) { g.faultsFired++; lastFaultT = g.now + std::min<int64_t>(sc.silenceFor, 3000 * MS); }
+      else { bus.lastByteTime = g.now; if (sc.silenceFor <= 3000 * MS) lastFaultT = g.now; }
+    }
     if (!stress) {
       for (int i = 0; i < nreq; i++) {
         Shadow* sh = sc.reqs[i].get();
@@ -393,7 +399,7 @@ int main(int argc, char** argv) {
     for (long k = 0; k < base.ppolls; k++) faults.push_back({0, k});
     for (long k = 0; k < base.reads; k++) { faults.push_back({1, k}); faults.push_back({2, k}); }
     for (long k = 0; k < base.writes; k++) { faults.push_back({3, k}); faults.push_back({4, k}); }
-    for (int k = 0; k < 12; k++) { faults.push_back({5, k}); faults.push_back({6, k}); }
+    for (int k = 0; k < 12; k++) { faults.push_back({5, k}); faults.push_back({6, k}); faults.push_back({8, k}); }
     for (long k = 0; k < base.hostBytes; k++) faults.push_back({7, k});
     // shard/limit: deterministic subsample when more than maxFaults
     size_t stride = faults.size() > (size_t)maxFaults ? (faults.size() + (size_t)maxFaults - 1) / (size_t)maxFaults : 1;
@@ -403,6 +409,7 @@ int main(int argc, char** argv) {
       buildScenario(sc, r, false);
       F f = faults[fi];
       if (a.num("fault", -1) >= 0 && (long)fi != a.num("fault", -1)) continue;
+      if (a.num("onlykind", -1) >= 0 && f.kind != a.num("onlykind", -1)) continue;
       std::string fd;
       if (f.kind == 0) { sc.failPpollAt = f.idx; fd = "ppoll-hup@" + std::to_string(f.idx); }
       else if (f.kind == 1) { sc.failReadAt = f.idx; fd = "read-error@" + std::to_string(f.idx); }
@@ -411,6 +418,13 @@ int main(int argc, char** argv) {
       else if (f.kind == 4) { sc.shortWriteAt = f.idx; fd = "short-write@" + std::to_string(f.idx); }
       else if (f.kind == 7) { sc.echoCorruptAt = f.idx; fd = "echo-corrupt@" + std::to_string(f.idx); }
       else if (f.kind == 5) { sc.invalidFrom = (int64_t)(100 + f.idx * 60) * MS; sc.invalidFor = (int64_t)(50 + 700 * (f.idx % 3)) * MS; fd = "device-invalid@" + std::to_string(sc.invalidFrom / MS) + "ms"; }
+      else if (f.kind == 8) {
+        // requests are submitted while the signal is already known to be lost (handler in its no-signal state)
+        // (the signal does not come back within the scenario: completion must not depend on that)
+        sc.silenceFrom = 100 * MS; sc.silenceFor = 3600LL * 1000 * MS;
+        for (auto& t : sc.submitAt) t += (int64_t)(3500 + f.idx * 170) * MS;
+        fd = "submit-during-outage@" + std::to_string(3500 + f.idx * 170) + "ms";
+      }
       else { sc.silenceFrom = (int64_t)(100 + f.idx * 70) * MS; sc.silenceFor = (int64_t)(1100 + 900 * (f.idx % 3)) * MS; fd = "signal-loss@" + std::to_string(sc.silenceFrom / MS) + "ms"; }
       st.hist["fault_kinds"][fd.substr(0, fd.find('@'))]++;
       current("D case " + std::to_string(ci) + " fault " + fd + " fi=" + std::to_string(fi));
